@@ -263,6 +263,9 @@ def Rodas(dae: nDAE,
                             if np.abs(tevent - told) < opt.event_duration and (
                                     told == t0 or (nevent >= 0 and told == te[nevent])):
                                 # this close to the start of the run or to the event just located it is that same event
+                                # the next step compares with the values at the end of this step, not with the last bisection
+                                # evaluation (which may lie before the crossing: the next step would report it again at its start)
+                                value = value_save
                                 break
                             t = tevent
                             ynew = ynext
